@@ -380,21 +380,20 @@ Fixpoint reverse_entries (es : @smap wop) (m : @smap value) : @smap wop :=
 Definition reverse_history_changes (main : cstate value) (ch : changes) : changes :=
   map (fun ce => (fst ce, reverse_entries (snd ce) (cget (fst ce) main))) ch.
 
+(* the historical duplicate columns are updated entry by entry, column by column *)
+Fixpoint upd_entries (g : key -> wop -> @smap wop -> @smap wop) (es : @smap wop) (m : @smap wop) : @smap wop :=
+  match es with [] => m | (k, o) :: r => upd_entries g r (g k o m) end.
+Fixpoint upd_hist (g : key -> wop -> @smap wop -> @smap wop) (rc : changes) (dup : cstate wop) : cstate wop :=
+  match rc with
+  | [] => dup
+  | (c, es) :: r => upd_hist g r (cset c (upd_entries g es (cget c dup)) dup)
+  end.
 (* remove_historical_modifications *)
-Fixpoint remove_dup_entries (h : N) (es : @smap wop) (m : @smap wop) : @smap wop :=
-  match es with [] => m | (k, _) :: r => remove_dup_entries h r (mremove (height_key k h) m) end.
-Fixpoint remove_historical (h : N) (rc : changes) (dup : cstate wop) : cstate wop :=
-  match rc with
-  | [] => dup
-  | (c, es) :: r => remove_historical h r (cset c (remove_dup_entries h es (cget c dup)) dup)
-  end.
-Fixpoint add_dup_entries (h : N) (es : @smap wop) (m : @smap wop) : @smap wop :=
-  match es with [] => m | (k, o) :: r => add_dup_entries h r (minsert (height_key k h) o m) end.
-Fixpoint add_historical (h : N) (rc : changes) (dup : cstate wop) : cstate wop :=
-  match rc with
-  | [] => dup
-  | (c, es) :: r => add_historical h r (cset c (add_dup_entries h es (cget c dup)) dup)
-  end.
+Definition remove_historical (h : N) : changes -> cstate wop -> cstate wop :=
+  upd_hist (fun k _ m => mremove (height_key k h) m).
+(* the historical_changes of store_modifications_history *)
+Definition add_historical (h : N) : changes -> cstate wop -> cstate wop :=
+  upd_hist (fun k o m => minsert (height_key k h) o m).
 
 Fixpoint apply_entries (es : @smap wop) (m : @smap value) : @smap value :=
   match es with [] => m | (k, o) :: r => apply_entries r (apply_op k o m) end.
